@@ -269,6 +269,47 @@ func runC06Proto(w *W) {
 			continue
 		}
 		bad, how := damageProto(w, msg, ms, deepTag)
+		// a wide repeated field: thousands of small elements (packed run, or one record per element), sometimes cut
+		if t.Chance(1, 12, "pfault.wide") {
+			for _, f := range sch.Root().Fields {
+				if f.Card != cRepeated || f.K == pkMessage {
+					continue
+				}
+				n := pickInt(t, "pfault.wide.n", 3000, 1000, 8000, 20000)
+				var wide []byte
+				switch {
+				case f.K == pkString || f.K == pkBytes:
+					for i := 0; i < n; i++ {
+						wide = refAppendVarint(wide, uint64(f.Num)<<3|2)
+						wide = append(wide, 1, 'x')
+					}
+				case f.K.fixedWidth():
+					sz := 8
+					if f.K == pkFixed32 || f.K == pkSfixed32 || f.K == pkFloat {
+						sz = 4
+					}
+					wide = refAppendVarint(wide, uint64(f.Num)<<3|2)
+					wide = refAppendVarint(wide, uint64(n*sz))
+					wide = append(wide, make([]byte, n*sz)...)
+				case t.Chance(1, 2, "pfault.wide.unpacked"):
+					for i := 0; i < n; i++ {
+						wide = refAppendVarint(wide, uint64(f.Num)<<3|0)
+						wide = append(wide, 1)
+					}
+				default:
+					wide = refAppendVarint(wide, uint64(f.Num)<<3|2)
+					wide = refAppendVarint(wide, uint64(n))
+					wide = append(wide, make([]byte, n)...)
+				}
+				bad, how = wide, fmt.Sprintf("wide repeated field %d with %d elements", f.Num, n)
+				if t.Chance(1, 2, "pfault.wide.cut") {
+					bad = bad[:len(bad)-1]
+					how += " (cut)"
+				}
+				w.Count("pfault_wide_repeated")
+				break
+			}
+		}
 		if t.Chance(1, 4, "fault.second") {
 			var ms2 []pmark
 			pbMarks(bad, 0, 0, &ms2)
